@@ -30,21 +30,37 @@ if [ $builds = yes ]; then
   rm -f $place/zz_seed_demo_test.go
 fi
 cd /verif
-git -C /repo worktree remove --force $scratch
-# run the check(s) against /repo with the patch
+# run the check(s) with the patch: against /repo (apply, run, revert), or - SEEDEVAL_ALT=1 - against the scratch
+# worktree itself (harness built with a -modfile pointing there; /repo and /verif/evidence stay untouched, so
+# several seeds can be evaluated at once)
 caught=""; results=""
+if [ -n "$SEEDEVAL_ALT" ] && [ $builds = yes ]; then
+  (cd $scratch && git apply $dst/patch.diff)
+  export VERIF_ALT_REPO=$scratch
+else
+  git -C /repo worktree remove --force $scratch
+fi
 if [ $builds = yes ]; then
-  git -C /repo apply $dst/patch.diff
+  [ -z "$SEEDEVAL_ALT" ] && git -C /repo apply $dst/patch.diff
   props="$prop"
   [ "$mode" = all ] && props="C01 C02 C03 C04 C05 C06 C07 C08 C09 C10 C11 C12 C13 C14 C15 C16 C17 C18 C19"
+  [ -n "$mode" ] && [ "$mode" != all ] && props="$mode"
   for p in $props; do
     out=$(/verif/run.sh $p quick 2>&1); rc=$?
     results="$results $p:rc=$rc"
     if [ $rc = 1 ]; then caught="$caught $p"; echo "$out" | grep -A3 '^VIOLATION' | head -8 > $dst/violation-$p.txt; fi
     if [ $rc != 0 ] && [ $rc != 1 ]; then echo "$out" | tail -20 > $dst/harness-error-$p.txt; fi
   done
-  git -C /repo checkout -q -- .
-  git -C /repo status --short | grep -v '^??' && echo "WARNING: /repo not clean"
+  if [ -z "$SEEDEVAL_ALT" ]; then
+    git -C /repo checkout -q -- .
+    git -C /repo status --short | grep -v '^??' && echo "WARNING: /repo not clean"
+  fi
+fi
+if [ -n "$SEEDEVAL_ALT" ]; then
+  A=/verif/.work/alt-$(echo "$scratch" | md5sum | cut -c1-10)
+  rm -rf $A
+  git -C /repo worktree remove --force $scratch 2>/dev/null
+  unset VERIF_ALT_REPO
 fi
 python3 - "$id" "$prop" "$applies" "$builds" "$suite" "$demo_with" "$demo_without" "$caught" "$results" "$place" <<'PY'
 import json,sys
